@@ -81,6 +81,9 @@ def handle (op : String) (j : Json) : Option (Except String Json) :=
   | "c05.iop" => some do
       .ok (J.ofOp (C05.bkInteractionOp tol (← nat j "N") (← nat j "n") (← J.gq (← J.field j "constant"))
         (← gqList (← J.field j "one")) (← gqList (← J.field j "two"))))
+  | "c05.iop_ok" => some do
+      .ok (Json.bool (C05.bkInteractionOpOk tol (← nat j "N") (← nat j "n") (← J.gq (← J.field j "constant"))
+        (← gqList (← J.field j "one")) (← gqList (← J.field j "two"))))
   | "c05.enc" => some do
       .ok (J.ofNat (Spec.C05.enc (← parseVariant (← J.field j "variant")) (← nat j "n") (← nat j "s")))
   | "c05.sets_check" => some do
